@@ -5603,7 +5603,7 @@ class NetCDFRead(IORead):
 
         self.implementation.set_properties(c, properties)
 
-        if not g["mask"]:
+        if not g["mask"] and ncvar is not None:
             self._set_default_FillValue(c, ncvar)
 
         data = None
